@@ -1,6 +1,7 @@
 package checks
 
 import (
+	"context"
 	"errors"
 	"fmt"
 	"os"
@@ -15,6 +16,8 @@ import (
 
 	"encoding/json"
 
+	"github.com/elementsproject/peerswap/messages"
+	"github.com/elementsproject/peerswap/peersync"
 	"github.com/elementsproject/peerswap/policy"
 	"verif/mc"
 	"verif/node"
@@ -165,6 +168,9 @@ func TestE5RaceWorker(t *testing.T) {
 	}
 	for _, v := range []string{"reload", "add", "disable", "reload+add"} {
 		hs = append(hs, e5PolicyHarness(t, v))
+	}
+	for _, v := range []string{"poll+force", "poll+sweep", "poll+force+sweep", "poll+twice"} {
+		hs = append(hs, e5PeersyncHarness(t, v))
 	}
 	var reps []e5Report
 	for i, h := range hs {
@@ -450,4 +456,55 @@ func TestE5RaceSelf(t *testing.T) {
 		return []sched.NamedFunc{{Name: "a", F: func() { raceSelfUnsync(1); raceSelfSynced(1) }}, {Name: "b", F: func() { raceSelfUnsync(2); raceSelfSynced(2) }}}, nil, nil
 	}}
 	sched.Explore(h, 2, 50, nil)
+}
+
+// e5PsLn is the Lightning port of the peer-sync harness: every call is a scheduling point.
+type e5PsLn struct {
+	peers []peersync.PeerID
+}
+
+func (l *e5PsLn) SendCustomMessage(context.Context, peersync.PeerID, messages.MessageType, []byte) error {
+	sched.Yield("ln.send")
+	return nil
+}
+func (l *e5PsLn) SubscribeCustomMessages(context.Context) (<-chan peersync.CustomMessage, error) {
+	return make(chan peersync.CustomMessage), nil
+}
+func (l *e5PsLn) Stop() error { return nil }
+func (l *e5PsLn) ListPeers(context.Context) ([]peersync.PeerID, error) {
+	sched.Yield("ln.listpeers")
+	return append([]peersync.PeerID{}, l.peers...), nil
+}
+
+// e5PeersyncHarness: the entry points of the real peersync.PeerSync that the daemons run
+// concurrently - the poll ticker's pass, an operator-forced pass (RPC) and the cleanup sweep -
+// against a real bbolt store with two connected peers that have no record yet.
+func e5PeersyncHarness(t testing.TB, variant string) sched.Harness {
+	return sched.Harness{Name: "peersync/" + variant, Setup: func() ([]sched.NamedFunc, func(e *sched.Exec) []string, func()) {
+		p := filepath.Join(workDir, fmt.Sprintf("c19-ps-%d-%d.db", os.Getpid(), c26Seq.Add(1)))
+		store, err := peersync.NewStore(p)
+		if err != nil {
+			t.Fatalf("peersync store: %v", err)
+		}
+		self, _ := peersync.NewPeerID(scn.IDA)
+		q, _ := peersync.NewPeerID(scn.IDB)
+		r, _ := peersync.NewPeerID("03" + strings.Repeat("cd", 32))
+		ln := &e5PsLn{peers: []peersync.PeerID{q, r}}
+		ps := peersync.NewPeerSync(self, store, ln, nil, []string{"btc", "lbtc"}, e5Prem)
+		ctx := context.Background()
+		var th []sched.NamedFunc
+		if strings.Contains(variant, "poll") {
+			th = append(th, sched.NamedFunc{Name: "poll-ticker", F: func() { ps.PollAllPeers(ctx) }})
+		}
+		if strings.Contains(variant, "force") {
+			th = append(th, sched.NamedFunc{Name: "rpc:forcepoll", F: func() { ps.ForcePollAllPeers(ctx) }})
+		}
+		if strings.Contains(variant, "sweep") {
+			th = append(th, sched.NamedFunc{Name: "cleanup-ticker", F: func() { _ = ps.VerifCleanupExpired(ctx) }})
+		}
+		if strings.Contains(variant, "twice") {
+			th = append(th, sched.NamedFunc{Name: "poll-ticker-2", F: func() { ps.PollAllPeers(ctx) }})
+		}
+		return th, nil, func() { store.Close(); os.Remove(p) }
+	}}
 }
